@@ -163,6 +163,48 @@ fn large_case(case: &mut Case, depth: usize, width: usize) {
     }
 }
 
+/// Models whose only properties are eventually-properties without any counterexample (every
+/// maximal path meets the condition, by the oracle): nothing can be discovered, so there is no
+/// reason to stop early and the whole reachable set has to be evaluated - also past the states
+/// at which every property has already been met on the path.
+fn eventually_only_case(case: &mut Case) {
+    let knobs = Knobs { max_n: 24, ..Knobs::default() };
+    let mut g = gen_graph(&mut case.rng, &knobs);
+    let reach = g.reach();
+    let mut tries = 0;
+    while g.props.len() < case.rng.range(1, 2) && tries < 12 {
+        tries += 1;
+        // true at the initial states and at a random set of further states
+        let mut l: Vec<bool> = (0..g.n).map(|_| case.rng.pct(40)).collect();
+        for i in &g.inits {
+            l[*i as usize] = true;
+        }
+        if !g.eventually_counterexample_exists(&l) {
+            g.labels.push(l);
+            g.props.push((Expectation::Eventually, g.labels.len() - 1));
+        }
+    }
+    if g.props.is_empty() {
+        case.distinct(g.structural_hash(), false);
+        return;
+    }
+    case.distinct(g.structural_hash(), reach.count >= 3);
+    let model = GraphModel(Arc::new(g));
+    case.sample(|| model.summary());
+    for strategy in STRATEGIES {
+        let threads = *case.rng.pick(&[1usize, 2, 4]);
+        let cfg = RunCfg { threads, ..RunCfg::default() };
+        let out = run_checker(&model, strategy, &cfg, false);
+        case.add(&format!("runs_eventually_only_{}", strategy.name()), 1);
+        if !out.discoveries.is_empty() {
+            // a false alarm is C11's business; the run may then have stopped early for a reason
+            case.add("eventually_only_runs_with_a_discovery", 1);
+            continue;
+        }
+        check_exhaustive_run(case, &model, &reach, strategy, threads, &out, true);
+    }
+}
+
 /// The same initial state listed more than once. "Evaluated once" is only promised for distinct
 /// initial states, so repeats among the visits are accepted here; the evaluated *set* must still
 /// be exactly the reachable set and `unique_state_count` its size.
@@ -245,6 +287,7 @@ pub fn run(ctx: &mut Ctx) {
         });
     }
     stateright::verif::set_block_size(0);
+    ctx.cases("eventually_only", ctx.n(800, 12000), 0, eventually_only_case);
     ctx.cases("duplicate_initial_states", ctx.n(200, 4000), 0, duplicate_inits_case);
     ctx.cases("large_layered", ctx.n(30, 150), 2, |case| {
         let (d, w) = *case.rng.pick(&[(6usize, 2000usize), (5, 6000), (8, 4000), (4, 12000)]);
